@@ -488,7 +488,7 @@ def _update_zo_file(
     log_message: str,
     should_record_hash: bool = True,
 ) -> None:
-    zlines = zo_path.read_text().split("\n")
+    zlines = c.read_text_as_is(zo_path).split("\n")
     for note in notes_to_update:
         assert note.zid is not None
         assert note.line_no is not None
@@ -497,8 +497,13 @@ def _update_zo_file(
         end_idx = note.line_no + len(note.body.split("\n")) - 1
         new_note_lines = zlines[start_idx:end_idx]
         first_note_line = new_note_lines[0]
-        new_note_lines[0] = add_thing_to_first_line(
-            get_thing(note), first_note_line
+        # Lines of a file that uses Windows line endings still end in '\r'.
+        eol = "\r" if first_note_line.endswith("\r") else ""
+        new_note_lines[0] = (
+            add_thing_to_first_line(
+                get_thing(note), first_note_line.removesuffix(eol)
+            )
+            + eol
         )
         zlines = zlines[:start_idx] + new_note_lines + zlines[end_idx:]
 
